@@ -227,3 +227,40 @@ def spec_sounding(score):
             t0 += cd
         out[nm] = evs
     return out
+
+
+# ---- reading live objects back into the JSON form -------------------------------------
+def read_note(n):
+    t = n.type
+    kind, d = (t[0], t[1:]) if t not in ("r", "l", "d", "x", "a") and len(t) == 2 else (t, "")
+    out = {"kind": kind, "val": int(n.val), "oct": int(n.octave), "dur": F(n.duration), "amp": n.amp if isinstance(n.amp, int) else float(n.amp)}
+    if d:
+        out["dir"] = d
+    if n.mode is not None:
+        out["mode"] = n.mode
+    if n.accident is not None:
+        out["acc"] = n.accident
+    return out
+
+
+def read_chord(ch):
+    from harness.props.C02 import parse_ext_string
+    e = parse_ext_string(ch.extension)
+    t = ch.tonality
+    c = {"elem": int(ch.element), "fig": e["fig"], "tdeg": int(t.degree) if t is not None else 0,
+         "tmode": t.mode if t is not None else "M", "toct": int(t.octave) if t is not None else 0, "coct": int(ch.octave),
+         "parts": [[nm, [read_note(n) for n in mel.notes]] for nm, mel in ch.score.items()]}
+    for k in ("repl", "adds", "rems"):
+        if e[k]:
+            c[k] = e[k]
+    if t is None:
+        c["ton_none"] = True
+    return c
+
+
+def read_score(sc):
+    return [read_chord(ch) for ch in sc.chords]
+
+
+def total_dur(score):
+    return sum((max([sum(F(n["dur"]) for n in notes) for _, notes in c["parts"]], default=F(0)) for c in score), F(0))
